@@ -740,8 +740,14 @@ func buildInboundClustersFromServiceInstances(cb *ClusterBuilder, proxy *model.P
 	if cb.req.Push.Mesh.GetInboundTrafficPolicy().GetMode() == meshconfig.MeshConfig_InboundTrafficPolicy_PASSTHROUGH {
 		bind = ""
 	}
-	// For each workload port, we will construct a cluster
-	for epPort, instances := range clustersToBuild {
+	// For each workload port, we will construct a cluster; in port order, not in map iteration order, so
+	// that the order of the inbound clusters is the same in every push
+	epPorts := make([]int, 0, len(clustersToBuild))
+	for epPort := range clustersToBuild {
+		epPorts = append(epPorts, epPort)
+	}
+	for _, epPort := range slices.Sort(epPorts) {
+		instances := clustersToBuild[epPort]
 		if ingressPortListSet.Contains(int(instances[0].Port.TargetPort)) {
 			// here if port is declared in service and sidecar ingress both, we continue to take the one on sidecar + other service ports
 			// e.g. 1,2, 3 in service and 3,4 in sidecar ingress,
